@@ -1,5 +1,5 @@
 """Source of MANIFEST.json (see mkmanifest.py)."""
-HOOK_COMMITS = []
+HOOK_COMMITS = ['dd72dcd']
 PENDING = "not claimed yet: the check for this property is still being built (see DESIGN.md section 11); no verdict is offered"
 NOT_APPLICABLE = {
     "C09": "crash-freedom of ~1000 functions x arbitrary inputs has no state/transition structure to specify; deciding it is input fuzzing, a different technique family (DESIGN.md section 6)",
@@ -48,6 +48,11 @@ CHECKS = {
   "design_ref": "DESIGN.md section 3 C14",
   "note": TRUST + " Three open findings (missing -if-not variants, empty sequences rejected, fill bounds) are matched by the shape of the observed failure.",
   "technique": "TLA+ transcription (TLC invariant + exhaustive parameter enumeration), results replayed against the code"},
+ "C20": {
+  "text": "Model checking plus behaviours replayed through crash hooks: ReplStore.tla models the history as pkg/repl keeps it (forms in memory, history file, history.tmp, one action per file-system step of Add and Clear, process death before any step or in the middle of a write) together with the reference of the property; TLC checks on it that a restart loads exactly the reference and that a death at any point loads a prefix or suffix of the reference before or after the interrupted operation, no duplicate, no line that was not entered (this found the glued-fragment defect, since repaired); the same behaviours - every transition of the bounded graph for limits 2 and 3, random walks for limit 10 - are replayed into a real repl.History built with the verif tag, the hook in front of the named file-system call simulating the death, and the loaded history after every restart / death is judged by the TLA+ acceptor ReplStoreTrace under TLC. Settings: histories of setq / restart from ReplSettings.tla, every session a separate process.",
+  "design_ref": "DESIGN.md section 3 C20",
+  "note": TRUST + " A process death is simulated by panicking out of the hook (for a torn write after writing half of the pending bytes); durability of completed writes and renames is assumed. The stash file is not covered yet.",
+  "technique": "TLA+ model with crash actions checked by TLC (invariants), its behaviours replayed into the code through build-tag hooks, TLA+ trace acceptor"},
  "C10": {
   "text": "Model-based conformance: Generic.tla is the reference (method table -> effective method) together with an implementation-shaped cache/fast-path model whose coherence TLC checks as invariants; TLC emits one defmethod/replace/remove-method/call history per transition of the bounded state graph (VIEW includes a ghost of the cache so call-before-definition paths are distinct states) plus random walks; every history is executed against slip built from /repo and every call's method trace is compared with the trace TLC computed.",
   "design_ref": "DESIGN.md section 3 C10",
